@@ -158,8 +158,9 @@ inductive CCall (Arg : Type) where
   | destroy (slot : Nat)
   | writeMem (h : Nat) (a : Arg) (oom : Bool)
   | freeBuffer
-  /-- wrapper `w` called with NULL for a pointer its guard tests (or with `buffer->data` already set) -/
-  | nullArg (w : Wrapper) (h : Nat)
+  /-- wrapper `w` called with NULL for the pointer parameter `p` (or, `p = "buffer->data"` of
+      `writesplinefitstable_mem`, with a buffer that is already set) -/
+  | nullArg (w : Wrapper) (p : String) (h : Nat)
 
 /-- what the C caller sees -/
 structure CObs (Val : Type) where
@@ -258,7 +259,7 @@ def cstep {Obj Arg Val : Type} (F : LifeFacts) (T : List Wrapper) (sem : Sem Obj
         | o => ({ s with hs := s.hs.set h (.live r.2.1) }, ⟨lifeRet T "writesplinefitstable_mem" o, none⟩)
     | _ => ({ s with ub := true }, ⟨.escapes, none⟩)   -- `*static_cast<…*>(NULL)`: not defined (`cDefined` excludes it)
   | .freeBuffer => ({ s with led := { s.led with buffers := s.led.buffers - 1 } }, ⟨.void, none⟩)
-  | .nullArg w _ => (s, ⟨guardRet w, none⟩)
+  | .nullArg w _ _ => (s, ⟨guardRet w, none⟩)   -- the guard returns before anything else happens (`cDefined`: `p` is tested)
 
 /-- The scope in which the C code has defined behaviour *and* a C++ program for the same calls exists.  Beyond the
     usage rule `opValid` it contains: wrappers that test `table->data` on a handle that owns nothing, calls with a NULL
@@ -281,7 +282,7 @@ def cDefined {Obj Arg Val : Type} (T : List Wrapper) (s : CSt Obj Val) : CCall A
   | .destroy slot => slot < s.rs.length
   | .writeMem h _ _ => h < s.hs.length && (hptr s h).st == .live
   | .freeBuffer => 0 < s.led.buffers
-  | .nullArg w _ => T.contains w && w.name != "splinetable_grideval" && (w.nullChecked.any (· != "table->data") || !w.mustBeNull.isEmpty)
+  | .nullArg w p _ => T.contains w && w.name != "splinetable_grideval" && ((p != "table->data" && w.nullChecked.contains p) || w.mustBeNull.contains p)
 
 /-- the ownership-level operation(s) (Model/CApi.lean) a call amounts to -/
 def opOf {Obj Arg Val : Type} (sem : Sem Obj Arg Val) (s : CSt Obj Val) : CCall Arg → List Op
@@ -305,7 +306,7 @@ def opOf {Obj Arg Val : Type} (sem : Sem Obj Arg Val) (s : CSt Obj Val) : CCall 
     | .live x => if oom then [.writeMem h .throws] else [.writeMem h (sem.member .writeFitsMem a x).1]
     | _ => [.use h]
   | .freeBuffer => [.freeBuffer]
-  | .nullArg _ _ => []
+  | .nullArg _ _ _ => []
 
 def crun {Obj Arg Val : Type} (F : LifeFacts) (T : List Wrapper) (sem : Sem Obj Arg Val) :
     CSt Obj Val → List (CCall Arg) → CSt Obj Val × List (CObs Val)
@@ -385,7 +386,7 @@ def tstep {Obj Arg Val : Type} (sem : Sem Obj Arg Val) (t : TSt Obj Val) : CCall
         | .ok => ({ t with objs := t.objs.set h (some r.2.1), bufs := t.bufs + 1 }, ⟨some .ok, some r.2.2⟩)
         | o => ({ t with objs := t.objs.set h (some r.2.1) }, ⟨some o, none⟩)
   | .freeBuffer => ({ t with bufs := t.bufs - 1 }, ⟨some .ok, none⟩)                  -- `free(b.first);`
-  | .nullArg _ _ => (t, ⟨none, none⟩)
+  | .nullArg _ _ _ => (t, ⟨none, none⟩)
 
 def trun {Obj Arg Val : Type} (sem : Sem Obj Arg Val) : TSt Obj Val → List (CCall Arg) → TSt Obj Val × List (TObs Val)
   | t, [] => (t, [])
@@ -401,7 +402,7 @@ def CSt.abs {Obj Val : Type} (s : CSt Obj Val) : TSt Obj Val := ⟨s.hs.map HPtr
 def CCall.retTy {Arg : Type} : CCall Arg → RetTy
   | .init .. | .readFile .. | .readMem .. | .grideval .. | .writeMem .. => .status
   | .free _ | .destroy _ | .freeBuffer => .void
-  | .member w .. | .nullArg w _ => w.ret
+  | .member w .. | .nullArg w _ _ => w.ret
 
 /-- the C caller sees what a faithful wrapper shows for the C++ outcome (a call that cannot be written down in C++
     — no object, NULL argument — must show the failure value), no exception leaves, and the same value -/
